@@ -269,6 +269,26 @@ def run_cell(cell, seed):
                 okc, d, ratio = util.compare('x.grad vs the gradient at the forward values', g4[0], util.np64(grad), tol4)
                 out.append(res(HELD, case4, 'M-JAC.native', ratio=ratio) if okc else
                            res(VIOLATED, case4, 'M-JAC.native', d, ratio=ratio))
+    # the same cotangent values behind another memory layout (what the next layer's backward may hand over):
+    # channels_last, and storage transposed in the last two axes
+    x5 = x0.clone().requires_grad_(True)
+    ok5, z5 = util.call_lib(mod, x5)
+    if ok5:
+        G = scatref.stage_gain(cell['biort'], cell['qshift'], cell['order'])
+        cond = max(1.0, float(x0.abs().max()) * G / cell['magbias'])
+        tol5 = 1e-11 * float(cot.abs().max()) * G * min(cond, 1e6) + 1e-300
+        for nm, cc in (('channels_last', cot.contiguous(memory_format=torch.channels_last)),
+                       ('transposed storage', cot.transpose(-1, -2).contiguous().transpose(-1, -2))):
+            case5 = {'cell': cell, 'check': 'cotangent in another memory layout', 'layout': nm}
+            ok5, g5 = util.call_lib(torch.autograd.grad, [z5], [x5], [cc], allow_unused=True, retain_graph=True)
+            if not ok5:
+                out.append(res(VIOLATED, case5, 'M-JAC.native', 'backward raised %r' % (g5,)))
+            elif g5[0] is None:
+                out.append(res(VIOLATED, case5, 'M-JAC.native', 'no gradient delivered'))
+            else:
+                okc, d, ratio = util.compare('x.grad vs the gradient for the contiguous cotangent', g5[0], util.np64(grad), tol5)
+                out.append(res(HELD, case5, 'M-JAC.native', ratio=ratio) if okc else
+                           res(VIOLATED, case5, 'M-JAC.native', d, ratio=ratio))
     # (ii) finite differences
     if cell['magbias'] >= 1e-2:
         case = {'cell': cell, 'check': 'fd'}
